@@ -140,6 +140,18 @@ int kalign_read_input(char* infile, struct msa** msa, int quiet)
                 *msa = NULL;
                 return OK;
         }
+        if(m->numseq == 0){
+                /* the format was recognised but the input does not contain a single sequence */
+                if(infile){
+                        WARNING_MSG("No sequences found in file: %s", infile);
+                }else{
+                        WARNING_MSG("No sequences found in standard input");
+                }
+                kalign_free_msa(m);
+                free_in_buffer(b);
+                DESTROY_TIMER(timer);
+                return OK;
+        }
         m->quiet = quiet;
 
         RUN(detect_alphabet(m));
